@@ -1,16 +1,62 @@
 """C03 — header statistics always describe the points actually stored.
-Model: stats_of / grow / file_of / read_file of Model/Las.v. Correspondence: the re-read header of files produced by one-shot,
-chunked and append sessions vs the model's reader on the same bytes; in-memory header after las.points = ..., las[ix], update_header()
-vs stats_of. Search: exact recomputation (numpy) of count / extrema / histogram / offsets / length from the bytes."""
+Model: stats_of / grow / file_of / read_file of Model/Las.v; Model/LasMulti.v for several writers alive together (theorem C03_ensemble: the file
+of each writer depends on its own operations only). Correspondence: the re-read header of files produced by one-shot, chunked and append
+sessions vs the model's reader on the same bytes; each writer of an ensemble vs the model's wrun on its own operations; in-memory header after
+las.points = ..., las[ix], update_header() vs stats_of. Search: exact recomputation of count / extrema / histogram / offsets / length from the
+BYTES of every produced file (no laspy code in the oracle): writer sessions opened in every way (class, laspy.open, encoding_errors, do_compress,
+laz_backend), append sessions, every (version, format) pair with every return number the format can store, ensembles of writers / appenders /
+LasData built from ONE header object and used interleaved, refused and torn writes followed by continued use."""
 import io
 
 import numpy as np
 
-from harness import common, lasio, sessions
-from harness.props import c04, c06
+from harness import common, lasio
+from harness.props import c06
 
-ASSUMPTIONS = ["positive finite scales (x -> x*scale+offset monotone in binary64: hypothesis ap_ok)",
-               "non-contiguous records (las[::2]) are materialised before being written by the harness"]
+ASSUMPTIONS = ["positive finite scales: the generic theorems assume ap_ok of the float formula x -> x*scale+offset; for the Gallina binary64 formula ap64 "
+               "(Model/F64Bits.v, compared bit for bit with numpy and with LasHeader.grow/update in every run) ap_ok is PROVED on good_scaling and "
+               "C03_extrema_binary64 / C03_grow_app_binary64 need no hypothesis on the formula",
+               "non-contiguous records (las[::2]) are materialised before being written by the harness",
+               "I/O faults judged here: a write_points / append_points whose low-level write fails with OSError BEFORE storing any byte, followed by "
+               "anything (with-block exit, more chunks, the same chunk again, close): the refused chunk counts as not accepted and the file must be the "
+               "file of the accepted chunks. Torn writes (bytes stored) are C19's (reading never yields other records); C03 does not range over them"]
+
+_WS = None
+_WS_ERRORS = []
+_ENS = None
+
+
+def writer_sessions(ctx):
+    global _WS
+    if _WS is None:
+        _WS = []
+        for _ in range(ctx.n(420, 4000)):
+            try:
+                s = lasio.ws_gen(ctx.rng, ctx.thorough())
+                s["run"] = lasio.ws_run(s)
+            except Exception as ex:
+                import traceback
+                ctx.notes.append("writer session generator raised: " + traceback.format_exc()[-600:])
+                _WS_ERRORS.append(f"{type(ex).__name__}: {ex} | " + traceback.format_exc()[-400:])
+                continue
+            _WS.append(s)
+    return _WS
+
+
+def ensembles(ctx):
+    global _ENS
+    if _ENS is None:
+        _ENS = []
+        for _ in range(ctx.n(260, 2500)):
+            try:
+                e = lasio.ens_gen(ctx.rng, ctx.thorough())
+            except Exception as ex:
+                ctx.notes.append(f"ensemble generator raised {type(ex).__name__}: {ex}")
+                continue
+            e["a"] = lasio.ens_run(e)
+            e["b"] = lasio.ens_run(e, isolated=True)
+            _ENS.append(e)
+    return _ENS
 
 
 def inmem_cases(ctx):
@@ -22,7 +68,7 @@ def inmem_cases(ctx):
         h = lasio.rand_header(rng)
         n = rng.choice([0, 1, 2, 9, 33])
         las = laspy.LasData(header=h)
-        pts = lasio.rand_points(rng, h, n)
+        pts = lasio.rand_points(rng, h, n) if rng.random() < 0.5 else lasio.sweep_points(rng, h, n)
         kind = rng.choice(["assign", "slice", "mask", "list", "update", "int", "resample"])
         las.points = pts
         if kind == "assign" or n == 0:
@@ -81,22 +127,37 @@ _INMEM = None
 
 def correspond(ctx):
     global _INMEM
-    ctx.extra["rule"] = ("files from random writer sessions (C04 generator) and append sessions (C06 generator): the model's read_file on the "
-                         "produced bytes vs laspy.read (every header field, VLRs, EVLRs, records); in-memory LasData after points assignment, "
-                         "slice / mask / index list, update_header(): header statistics vs the model's stats_of. non-trivial = at least one "
-                         "point with a non-zero return number or negative coordinate; distinct by file bytes / record bytes")
+    ctx.extra["rule"] = ("files from random writer sessions (opened through the class or laspy.open with every optional parameter; 40% with return numbers "
+                         "sweeping the whole range of the format), append sessions (C06 generator) and ensembles (2-4 writers / appenders / LasData created "
+                         "from ONE header object, operations interleaved, the same record handed to several): the model's read_file on the produced bytes vs "
+                         "laspy.read (every header field, VLRs, EVLRs, records); each writer of an ensemble vs the model's wrun on its own operations; in-memory "
+                         "LasData after points assignment, slice / mask / index list, update_header(): header statistics vs the model's stats_of. non-trivial = "
+                         "at least one point; distinct by file bytes / record bytes")
     import laspy
     dis = []
     files = []
-    for s in c04.sessions_for(ctx):
+    # the binary64 formula inside the model (Model/F64Bits.v, theorems C03_*_binary64): extracted ap64 vs numpy and vs LasHeader.grow/update
+    from harness import ap_corr
+    dis += ap_corr.correspond(ctx)
+    for s in writer_sessions(ctx):
         iouts, raw, _, _ = s["run"]
         if iouts and not iouts[0].startswith("open-err"):
-            # sessions whose EVLRs were written after a close are not files the property speaks about
             files.append(("writer", raw))
     for a in c06.sessions_for(ctx):
         if a.get("final") is not None:
             files.append(("append", a["final"]))
-    outs = common.run_model(["read_file " + common.hexb(raw) for _, raw in files])
+    ens_cmds, ens_meta = [], []
+    for e in ensembles(ctx):
+        if e["a"]["error"]:
+            continue
+        for j, p in enumerate(e["parts"]):
+            files.append(("ensemble-" + p["kind"], e["a"]["files"][j]))
+            if p["kind"] in ("writer", "open-w"):
+                # Model/LasMulti.v, theorem C03_ensemble: the j-th file is the file of the j-th writer's own operations
+                ops = [(op[0], op[1], True) if op[0] == "P" else op for i, op in e["ops"] if i == j] + [("C",)]
+                ens_cmds.append(lasio.ws_cmd({"header": e["header0"], "ops": ops}))
+                ens_meta.append((e, j))
+    outs = common.run_model(["read_file " + common.hexb(raw) for _, raw in files] + ens_cmds)
     for (src, raw), mo in zip(files, outs):
         ctx.traces += 1
         try:
@@ -116,6 +177,13 @@ def correspond(ctx):
         bad = [k for k, v in hd.items() if k != "header_size" and md.get(k, 0 if isinstance(v, int) else b"") != v]
         if bad or common.unhex(t[7]) != lasio.rec_bytes(las.points):
             dis.append({"kind": f"read {src} file fields", "input": {"len": len(raw), "fields": bad[:5]}, "model": str({k: md.get(k) for k in bad[:3]}), "impl": str({k: hd[k] for k in bad[:3]})})
+    for (e, j), mo in zip(ens_meta, outs[len(files):]):
+        ctx.traces += 1
+        got = e["a"]["files"][j]
+        t = mo.split(" ")
+        if len(t) != 2 or t[1] != common.hexb(got):
+            dis.append({"kind": "file of one writer among several alive together", "input": dict(lasio.ens_describe(e), participant=j),
+                        "model": mo[:80], "impl": common.hexb(got)[:80]})
     # in-memory
     _INMEM = inmem_cases(ctx)
     cmds = []
@@ -246,6 +314,88 @@ def faulted_sessions(ctx):
     return out
 
 
+def pair_sweep(ctx):
+    """(kind, description, why) over EVERY (version, format) pair of the compatibility table: records whose return numbers take every value the
+    format can store (0..7 for formats 0-5 - also in 1.4 files, whose header has 15 bins -, 0..15 for 6-10), written one-shot, in chunks, through
+    LasData.write and by appending: the statistics of each file must be exact"""
+    import laspy
+    from laspy.vlrs.vlrlist import VLRList
+    rng = ctx.rng
+    out = []
+    for rep in range(ctx.n(2, 10)):
+        for v, f in lasio.ALL_PAIRS:
+            h = lasio.rand_header(rng, version=v, fmt=f)
+            r = lasio.return_range(f)
+            recs = [lasio.sweep_points(rng, h, n, start=rng.randrange(r)) for n in (r, rng.choice([1, 3]), 2 * r + 1)]
+            evl = VLRList([lasio.rand_vlr(rng, 40)]) if (v == "1.4" and rng.random() < 0.5) else None
+            allb = b"".join(lasio.rec_bytes(c) for c in recs)
+            whole = laspy.PackedPointRecord.from_buffer(bytearray(allb), h.point_format)
+            d = dict(lasio.describe_header(h), returns=[lasio.chunk_histogram(c, f) for c in recs], evlrs=len(evl or []))
+            routes = {}
+            try:
+                routes["one-shot LasWriter"] = lasio.write_las(h, whole, evl)
+                bio = io.BytesIO()
+                with laspy.open(bio, mode="w", header=h, closefd=False) as w:
+                    for c in recs:
+                        w.write_points(c)
+                    if evl:
+                        w.write_evlrs(evl)
+                routes["chunked laspy.open(mode=w)"] = bio.getvalue()
+                las = laspy.LasData(header=h)
+                las.points = whole
+                if evl:
+                    las.evlrs = evl
+                bio = io.BytesIO()
+                wkw = rng.choice([{}, {"do_compress": False}, {"laz_backend": None}, {"do_compress": None, "laz_backend": None}])
+                las.write(bio, **wkw)
+                routes["LasData.write" + (f"({', '.join(sorted(wkw))})" if wkw else "")] = bio.getvalue()
+                if rep == 0:
+                    # destinations given as a file name: laspy opens (and closes) the file itself
+                    import os
+                    import tempfile
+                    tmpd = tempfile.mkdtemp(dir="/var/tmp", prefix="c03_")
+                    try:
+                        p1, p2 = os.path.join(tmpd, "a.las"), os.path.join(tmpd, "b.LAS")
+                        with laspy.open(p1, mode="w", header=h) as w:
+                            for c in recs:
+                                w.write_points(c)
+                            if evl:
+                                w.write_evlrs(evl)
+                        las.write(p2)
+                        with open(p1, "rb") as f1, open(p2, "rb") as f2:
+                            routes["chunked laspy.open(path, mode=w)"], routes["LasData.write(path)"] = f1.read(), f2.read()
+                    finally:
+                        import shutil
+                        shutil.rmtree(tmpd, ignore_errors=True)
+                bio = io.BytesIO(lasio.write_las(h, recs[0], evl))
+                with laspy.open(bio, mode="a", closefd=False) as ap:
+                    for c in recs[1:]:
+                        ap.append_points(c)
+                routes["append"] = bio.getvalue()
+            except Exception as ex:
+                out.append(("version/format sweep: a session raised", d, f"{type(ex).__name__}: {ex}"))
+                continue
+            for route, raw in routes.items():
+                ctx.case(("pair", route, raw), nontrivial=True)
+                ctx.count(f"pair:{v}:{f}")
+                probs = lasio.raw_stats_problems(raw)
+                if not probs and lasio.raw_records(raw) != allb:
+                    probs = ["records: the stored records are not the ones written"]
+                if probs:
+                    out.append((f"(version, format) sweep: {probs[0].split(' ')[0]} not exact", dict(d, route=route), f"{route}: " + "; ".join(probs[:3])))
+    return out
+
+
+def _guarded(add, name, fn):
+    """runs one section of the search; if the section itself cannot be run on this tree (an exception escaping from laspy where the
+    unchanged tree raises none), that is reported as a failing input instead of losing the findings of the other sections"""
+    try:
+        fn()
+    except Exception as ex:
+        import traceback
+        add(f"search section '{name}' could not be run on this tree", {"section": name}, f"{type(ex).__name__}: {ex} | " + traceback.format_exc()[-700:])
+
+
 def search(ctx, seeds):
     failing, seen = [], set()
 
@@ -253,46 +403,111 @@ def search(ctx, seeds):
         if kind not in seen:
             seen.add(kind)
             failing.append({"kind": kind, "input": inp, "observed": why})
-    for s in c04.sessions_for(ctx):
-        iouts, raw, _, _ = s["run"]
-        if iouts and iouts[0].startswith("open-err"):
-            continue
-        try:
-            probs = sessions.stats_oracle(raw)
-        except Exception as ex:
-            probs = [f"the produced file cannot be read: {type(ex).__name__}: {ex}"]
-        if probs:
-            add("writer file: " + probs[0].split(" ")[0], c04.describe(s), "; ".join(probs[:3]))
-    for a in c06.sessions_for(ctx):
-        if a.get("final") is None:
-            continue
-        try:
-            probs = sessions.stats_oracle(a["final"])
-        except Exception as ex:
-            probs = [f"the appended file cannot be read: {type(ex).__name__}: {ex}"]
-        if probs:
-            add("appended file: " + probs[0].split(" ")[0], a["desc"], "; ".join(probs[:3]))
-    for kind, desc, raw, want in faulted_sessions(ctx):
-        ctx.case(("faulted", raw), nontrivial=True)
-        ctx.count("faulted/edited sessions")
-        try:
-            probs = sessions.stats_oracle(raw)
-            if not probs and want is not None:
-                import laspy
-                got = lasio.rec_bytes(laspy.read(io.BytesIO(raw)).points)
-                if got != want:
-                    probs = [f"records: the file holds {len(got)} bytes of records, the accepted chunks are {len(want)} bytes"]
-        except Exception as ex:
-            probs = [f"the produced file cannot be read: {type(ex).__name__}: {ex}"]
-        if probs:
-            add(kind + ": " + probs[0].split(" ")[0], desc, "; ".join(probs[:3]))
-    for label, las in (_INMEM if _INMEM is not None else inmem_cases(ctx)):
-        if type(las).__name__ != "LasData":
-            add("indexing a LasData did not return a LasData", {"op": label}, f"{label} returned a {type(las).__name__}: there is no header kept in sync with the selected points")
-            continue
-        probs = header_stats_problems(las.header, las.points)
-        if probs:
-            add("in-memory header after " + label.split("[")[0] + ": " + probs[0].split(" ")[0], {"op": label, "points": len(las.points), "version": str(las.header.version), "format": las.header.point_format.id}, "; ".join(probs[:3]))
+    def sec_writer_sessions():
+        writer_sessions(ctx)
+        for e in _WS_ERRORS[:1]:
+            add("writer session could not be generated / run", {}, e)
+        for s in writer_sessions(ctx):
+            iouts, raw, _, _ = s["run"]
+            if iouts and iouts[0].startswith("open-err"):
+                continue
+            probs = lasio.raw_stats_problems(raw)
+            if not probs and not lasio.ws_rescaled(s) and lasio.raw_records(raw) != lasio.ws_accepted(s, iouts):
+                probs = ["records: the file does not hold the accepted chunks"]
+            if probs:
+                add("writer file: " + probs[0].split(" ")[0], lasio.ws_describe(s), "; ".join(probs[:3]))
+            # (c) the optional parameters (laspy.open vs the class, closefd, do_compress=False/None, laz_backend=None/(), a lenient
+            # encoding_errors) must not change what is written: the same session through the plain constructor gives the same bytes
+            via, kw = s.get("open", ("class", {}))
+            plain = {k: v for k, v in kw.items() if k == "encoding_errors" and lasio.fingerprint_has_bytes(s["header"])}
+            if (via, kw) != ("class", plain):
+                o2, raw2, _, _ = lasio.ws_run(dict(s, open=("class", plain)))
+                ctx.count("writer-open-variant:" + via + ":" + ",".join(sorted(kw)))
+                upto = len(iouts)
+                if kw.get("closefd"):
+                    # once the writer closed its destination the later calls of the session meet a closed stream: compared up to the first close
+                    upto = next((i for i, o in enumerate(s["ops"]) if o[0] == "C"), len(iouts) - 1) + 1
+                if o2[:upto] != iouts[:upto] or raw2 != raw:
+                    add("an optional parameter of the writer changes the file", lasio.ws_describe(s),
+                        f"opened through {via} with {kw}: outcomes {iouts}, {len(raw)} bytes; through the plain constructor: {o2}, {len(raw2)} bytes")
+    _guarded(add, 'writer sessions', sec_writer_sessions)
+    def sec_append_sessions():
+        for a in c06.sessions_for(ctx):
+            if a.get("final") is None:
+                continue
+            probs = lasio.raw_stats_problems(a["final"])
+            if probs:
+                add("appended file: " + probs[0].split(" ")[0], a["desc"], "; ".join(probs[:3]))
+    _guarded(add, 'append sessions', sec_append_sessions)
+    def sec_version_format_sweep():
+        for kind, d, why in pair_sweep(ctx):
+            add(kind, d, why)
+    _guarded(add, 'version/format sweep', sec_version_format_sweep)
+    def sec_objects_alive_together():
+        # (a) several objects alive at the same time built from one header
+        for e in ensembles(ctx):
+            d = lasio.ens_describe(e)
+            a, b = e["a"], e["b"]
+            if a["error"] or b["error"]:
+                add("ensemble could not be run", d, str(a["error"] or b["error"]))
+                continue
+            nld = sum(1 for p in e["parts"] if p["kind"] == "lasdata")
+            for j, p in enumerate(e["parts"]):
+                fj = a["files"][j]
+                ctx.count("ensemble:" + p["kind"])
+                dj = dict(d, participant=j)
+                probs = lasio.raw_stats_problems(fj)
+                if not probs and lasio.raw_records(fj) != a["accepted"][j]:
+                    probs = [f"records: the file holds {len(lasio.raw_records(fj))} bytes of records, its own accepted chunks are {len(a['accepted'][j])} bytes"]
+                if probs:
+                    add(f"objects alive together built from one header ({p['kind']}): " + probs[0].split(" ")[0], dj, "; ".join(probs[:3]))
+                elif (p["kind"] != "lasdata" or nld == 1) and (fj != b["files"][j] or a["outs"][j] != b["outs"][j]):
+                    add(f"objects alive together built from one header ({p['kind']}): file differs from the same session run alone", dj,
+                        f"outcomes {a['outs'][j]} vs {b['outs'][j]}; lengths {len(fj)} vs {len(b['files'][j])}")
+            if a["header_touched"]:
+                add("the caller's header object was modified by a writer / appender", d, "fields, statistics, VLRs or point format of the header handed to the constructors changed")
+    _guarded(add, 'objects alive together', sec_objects_alive_together)
+    def sec_refused_writes_and_edited_sessions():
+        for kind, desc, raw, want in faulted_sessions(ctx):
+            ctx.case(("faulted", raw), nontrivial=True)
+            ctx.count("faulted/edited sessions")
+            try:
+                probs = lasio.raw_stats_problems(raw)
+                if not probs and want is not None and lasio.raw_records(raw) != want:
+                    probs = [f"records: the file holds {len(lasio.raw_records(raw))} bytes of records, the accepted chunks are {len(want)} bytes"]
+            except Exception as ex:
+                probs = [f"the produced file cannot be read: {type(ex).__name__}: {ex}"]
+            if probs:
+                add(kind + ": " + probs[0].split(" ")[0], desc, "; ".join(probs[:3]))
+    _guarded(add, 'refused writes and edited sessions', sec_refused_writes_and_edited_sessions)
+    def sec_torn_writes():
+        # (d) one low-level write refused with nothing stored, then continued use (torn writes that stored bytes: C19)
+        from harness.props import c19
+        for plan, policy, fa, run in c19.faults(ctx):
+            d = c19.describe_fault(plan, policy, fa, run)
+            if "error" in run or run["fault"] is None or not str(run["where"]).startswith("write_points") or run["fault"][3] != 0:
+                continue       # faults inside write_evlrs / close, and torn writes that stored bytes, are C19's
+            ctx.case(("torn", plan["kind"], run["final"][:4000], len(run["final"])), nontrivial=True)
+            ctx.count(f"torn:{plan['kind']}:{policy}")
+            tag = "exception leaves the with-block" if policy == "with" else "caller goes on"
+            probs = lasio.raw_stats_problems(run["final"])
+            try:
+                if not probs and lasio.raw_records(run["final"]) != run["accepted"]:
+                    probs = ["records: the announced records are not the accepted chunks"]
+            except ValueError as ex:
+                probs = [f"header: {ex}"]
+            if probs:
+                add(f"refused write ({plan['kind']}, nothing stored, {tag}): the header does not describe the accepted chunks", d, "; ".join(probs[:3]))
+    _guarded(add, 'torn writes', sec_torn_writes)
+    def sec_in_memory_headers():
+        for label, las in (_INMEM if _INMEM is not None else inmem_cases(ctx)):
+            if type(las).__name__ != "LasData":
+                add("indexing a LasData did not return a LasData", {"op": label}, f"{label} returned a {type(las).__name__}: there is no header kept in sync with the selected points")
+                continue
+            probs = header_stats_problems(las.header, las.points)
+            if probs:
+                add("in-memory header after " + label.split("[")[0] + ": " + probs[0].split(" ")[0], {"op": label, "points": len(las.points), "version": str(las.header.version), "format": las.header.point_format.id}, "; ".join(probs[:3]))
+    _guarded(add, 'in-memory headers', sec_in_memory_headers)
     return failing[:8]
 
 
